@@ -22,46 +22,46 @@ LEVEL = "exploration"
 SHARDS = {"quick": 8, "thorough": 16}
 BUDGET = {"quick": 27.0, "thorough": 400.0}
 REQUIRE = {
-    "col.evals": 80000,
-    "col.cl_nonneg_int": 80000,
-    "col.cl_own_or_nothing": 50000,
-    "col.cl_focus_visible": 50000,
-    "col.cl_no_overflow": 80000,
-    "col.cl_filled_when_weighted": 30000,
+    "col.evals": 40000,
+    "col.cl_nonneg_int": 40000,
+    "col.cl_own_or_nothing": 25000,
+    "col.cl_focus_visible": 25000,
+    "col.cl_no_overflow": 40000,
+    "col.cl_filled_when_weighted": 15000,
     "col.cl_proportional": 5000,
-    "col.cl_weighted_ge_minwidth": 30000,
+    "col.cl_weighted_ge_minwidth": 15000,
     "col.child_sizes_observed": 5000,
     "col.canvas_layout_checked": 5000,
     "col.cache_hit_agrees": 5000,
-    "col.live_focus_walks_at_same_width": 3000,
-    "live.histories": 300,
-    "live.ops_applied": 2000,
-    "live.op_focus": 800,
-    "live.op_size": 500,
-    "live.op_set": 300,
-    "live.op_boxcols": 20,
+    "col.live_focus_walks_at_same_width": 1500,
+    "live.histories": 150,
+    "live.ops_applied": 1000,
+    "live.op_focus": 400,
+    "live.op_size": 250,
+    "live.op_set": 150,
+    "live.op_boxcols": 10,
     "col.zero_domain_evals": 200,
     "pile.zero_domain_evals": 200,
-    "pile.evals": 12000,
-    "pile.cl_nonneg_int": 12000,
-    "pile.cl_own_size": 20000,
-    "pile.cl_weighted_fill_remainder": 10000,
+    "pile.evals": 8000,
+    "pile.cl_nonneg_int": 8000,
+    "pile.cl_own_size": 12000,
+    "pile.cl_weighted_fill_remainder": 6000,
     "pile.cl_proportional": 3000,
     "pile.child_sizes_observed": 2000,
-    "pile.live_revisits_same_height": 500,
+    "pile.live_revisits_same_height": 250,
     "pile.canvas_layout_checked": 2000,
-    "pad.evals": 9000,
-    "pad.cl_sum_exact": 9000,
-    "pad.cl_requested_when_fits": 5000,
+    "pad.evals": 5000,
+    "pad.cl_sum_exact": 5000,
+    "pad.cl_requested_when_fits": 3000,
     "pad.cl_remaining_otherwise": 100,
-    "pad.cl_split_by_percentage": 5000,
-    "pad.child_sizes_observed": 5000,
-    "fill.evals": 4500,
-    "fill.cl_sum_exact": 4500,
-    "fill.cl_requested_when_fits": 3000,
+    "pad.cl_split_by_percentage": 3000,
+    "pad.child_sizes_observed": 3000,
+    "fill.evals": 3000,
+    "fill.cl_sum_exact": 3000,
+    "fill.cl_requested_when_fits": 2000,
     "fill.cl_remaining_otherwise": 100,
-    "fill.cl_split_by_percentage": 3000,
-    "fill.child_sizes_observed": 3000,
+    "fill.cl_split_by_percentage": 2000,
+    "fill.child_sizes_observed": 2000,
     "ovl.evals": 1400,
     "ovl.cl_sum_exact": 2800,
     "ovl.cl_requested_when_fits": 1900,
@@ -89,11 +89,21 @@ REQUIRE = {
     "entry.pile.item_types": 300,
     "entry.pile.item_types-legacy": 300,
     "entry.pile.widget_list": 300,
-    "live.set_form_tuple-str": 100,
-    "live.set_form_options": 50,
-    "live.set_form_tuple-enum": 50,
+    "live.set_form_tuple-str": 50,
+    "live.set_form_options": 25,
+    "live.set_form_tuple-enum": 25,
     "grid.directed_per_cell_width_cases": 2300,
     "grid.per_cell_width_cases_judged": 2300,
+    "focusdep.columns_cases": 2400,
+    "focusdep.pile_cases": 300,
+    "col.focus_dependent_pack_measured": 2500,
+    "col.focus_dependent_pack_nonfocus_column_container_focus_True": 700,
+    "col.focus_dependent_pack_focus_column_container_focus_True": 400,
+    "col.focus_dependent_pack_path_flow": 1000,
+    "col.focus_dependent_pack_path_fixed": 1200,
+    "pile.focus_dependent_pack_measured": 600,
+    "pile.focus_dependent_pack_nonfocus_item_container_focus_True": 200,
+    "pile.focus_dependent_pack_focus_item_container_focus_True": 80,
     "grid.directed_core_cases": 800,
     "grid.directed_wrap_window_cases": 140,
     "grid.evals": 500,
@@ -111,7 +121,7 @@ RULE = (
     "random beyond (<=7 columns, sizes to 30, float and zero weights, zero given, box_columns flags, flow/fixed/box spy sizings, maxcol "
     "to 80). Pile: same scheme over <=4 items x {given 1..6, pack spy rows 1..6, weight 1..3} x maxrow 1..24. Padding / Filler / "
     "Overlay: align kinds {left,center,right,relative 0,1,33,50,67,99,100} x size kinds {given, relative, pack, clip} x min sizes x "
-    "margins 0..3 x available 1..24, random beyond. Live histories: random sequences of size / focus_position / contents[i]= / box_columns= on one Columns or box Pile, all clauses re-judged after every operation. GridFlow: directed core first (1..5 cells x cell width 1..5 x h_sep 0..2 x every maxcol from 1 to two past the one-line width, deterministic, not time-limited; a second directed core of non-uniform grids with one or two cells reconfigured through contents[i] = (w, options(width_amount=N)) / ('given', N), each cell judged at its own configured width), then 1..8 cells x cell width x separators x align x maxcol, glyph boxes read "
+    "margins 0..3 x available 1..24, random beyond. Live histories: random sequences of size / focus_position / contents[i]= / box_columns= on one Columns or box Pile, all clauses re-judged after every operation. Focus-dependent children: a deterministic core of 2496 Columns + 312 box Pile cases with pack spies whose pack()/rows() answer depends on the focus argument (FIXED and FLOW measuring paths) x every focus position x container focus flag; own size = the spy's answer for the focus flag it is rendered with. GridFlow: directed core first (1..5 cells x cell width 1..5 x h_sep 0..2 x every maxcol from 1 to two past the one-line width, deterministic, not time-limited; a second directed core of non-uniform grids with one or two cells reconfigured through contents[i] = (w, options(width_amount=N)) / ('given', N), each cell judged at its own configured width), then 1..8 cells x cell width x separators x align x maxcol, glyph boxes read "
     "off the canvas. A case = (container, options, focus, available size); distinct = distinct (options, focus) tuples for the two "
     "exhaustive cores and distinct full descriptors elsewhere; beyond 250k distinct descriptors per shard further cases are evaluated but not de-duplicated (counter cases_beyond_distinct_cap_not_deduplicated); *.shards_complete counters tell how many shards finished their slice of each enumeration in the time budget; non-trivial = the real code was executed and judged (cases for which "
     "urwid emits a WidgetWarning are counted as skipped_invalid, not as evaluations)"
@@ -120,7 +130,7 @@ ASSUMES = [
     "domain of the full statement: given >= 1, pack size >= 1, weights > 0, min_width >= 1; zero weights / zero given sizes are judged only "
     "for 'no exception other than the documented Columns/PileError, non-negative ints, no negative size at a child'",
     "inputs for which urwid itself emits a WidgetWarning subclass are outside the domain (skipped_invalid)",
-    "own size of a pack column = what the spy's pack() returned during that very call (observed), of a weighted column for the "
+    "own size of a pack column = what the spy answers, for the size it was asked with in that very call (observed), under the focus flag the column is rendered with (container focus and column == focus_position); of a weighted column for the "
     "'alone fits' clause = min_width",
     "'proportional within one column' = |width - T*weight/sum(weights)| <= 1 with T = total of the shown weighted columns; judged only "
     "when no ideal share is below min_width ('unless the minimum width intervenes')",
@@ -175,8 +185,11 @@ def U():
             self.ph = ph
             self.area = area
             self._selectable = selectable
+            self.fpw = None  # pack width / rows answered when asked with focus=True (None: same as unfocused)
+            self.fph = None
             self.rendered = []
             self.packed = []
+            self.flags = []  # (what, focus flag) of every pack / rows / render call
             self.neg = []
             self.seen = 0
 
@@ -192,6 +205,7 @@ def U():
         def reset(self):
             del self.rendered[:]
             del self.packed[:]
+            del self.flags[:]
             del self.neg[:]
 
         def _chk(self, what, size):
@@ -201,33 +215,42 @@ def U():
                     self.neg.append((what, tuple(size)))
                     break
 
-        def rows_for(self, w):
+        def pw_for(self, focus=False):
+            return self.fpw if focus and self.fpw is not None else self.pw
+
+        def rows_for(self, w, focus=False):
             if self.area:
                 return max(1, -(-self.area // max(w, 1)))
-            return self.ph
+            return self.fph if focus and self.fph is not None else self.ph
+
+        def pack_answer(self, size, focus=False):
+            """pure: what this widget answers to pack(size, focus)"""
+            if not size:
+                return (self.pw_for(focus), self.rows_for(1, focus))
+            if len(size) == 1:
+                return (max(min(self.pw_for(focus), size[0]), 0), self.rows_for(size[0], focus))
+            return tuple(size)
 
         def rows(self, size, focus=False):
             self._chk("rows", size)
-            return self.rows_for(size[0])
+            self.flags.append(("rows", bool(focus)))
+            return self.rows_for(size[0], focus)
 
         def pack(self, size=(), focus=False):
             self._chk("pack", size)
-            if not size:
-                r = (self.pw, self.ph)
-            elif len(size) == 1:
-                r = (max(min(self.pw, size[0]), 0), self.rows_for(size[0]))
-            else:
-                r = tuple(size)
+            self.flags.append(("pack", bool(focus)))
+            r = self.pack_answer(tuple(size), focus)
             self.packed.append((tuple(size), r))
             return r
 
         def render(self, size, focus=False):
             self._chk("render", size)
+            self.flags.append(("render", bool(focus)))
             self.rendered.append(tuple(size))
             if not size:
-                c, r = self.pw, self.ph
+                c, r = self.pack_answer((), focus)
             elif len(size) == 1:
-                c, r = size[0], self.rows_for(size[0])
+                c, r = size[0], self.rows_for(size[0], focus)
             else:
                 c, r = size
             return urwid.SolidCanvas(self.glyph, max(c, 0), max(r, 0))
@@ -402,6 +425,8 @@ def build_columns(d):
         kind, amount, sizing = col[0], col[1], col[2]
         flag = bool(col[3]) if len(col) > 3 else False
         s = spy(GLYPHS[i], sizing, pw=amount if kind == "pack" else 1, ph=1)
+        if kind == "pack" and len(col) > 4 and col[4] is not None:
+            s.fpw = col[4]  # pack width answered when asked with focus=True
         spies.append(s)
         specs.append((kind, None if kind == "pack" else amount, flag))
     boxcols = [i for i, sp in enumerate(specs) if sp[2]]
@@ -484,7 +509,17 @@ def eval_columns(obs, C, spies, d, focus, maxcol, mode, maxrow=2, fflag=False, d
         if kind == "given":
             own.append(amount)
         elif kind == "pack":
-            o = pack_own(s)
+            # own size = the widget's answer (for the size it was asked with) under the focus flag it is RENDERED with
+            i = len(own)
+            exp = bool(fflag and i == focus)
+            if s.packed:
+                o = s.pack_answer(s.packed[-1][0], exp)[0]
+                if s.pack_answer(s.packed[-1][0], True)[0] != s.pack_answer(s.packed[-1][0], False)[0]:
+                    obs.c["col.focus_dependent_pack_measured"] += 1
+                    obs.c[f"col.focus_dependent_pack_{'focus' if i == focus else 'nonfocus'}_column_container_focus_{bool(fflag)}"] += 1
+                    obs.c[f"col.focus_dependent_pack_path_{'fixed' if not s.packed[-1][0] else 'flow'}"] += 1
+            else:
+                o = None
             own.append(o)
         else:
             own.append(None)
@@ -526,7 +561,10 @@ def eval_columns(obs, C, spies, d, focus, maxcol, mode, maxrow=2, fflag=False, d
                 obs.fail("C19|Columns|render|visible-column-not-rendered-exactly-once", f"column {i} renders={s.rendered} widths={widths}")
                 continue
             got = s.rendered[0]
-            gw = got[0] if got else s.pw
+            rflag = [f for what, f in s.flags if what == "render"][-1]
+            if rflag != bool(fflag and i == focus):
+                obs.fail("C19|Columns|render|child-rendered-with-wrong-focus-flag", f"column {i} rendered with focus={rflag}, container focus={fflag}, focus column {focus}")
+            gw = got[0] if got else s.pack_answer((), rflag)[0]
             if gw != full[i]:
                 obs.fail(f"C19|Columns|render-{mode}|child-width!=assigned-width|kind={cols[i][0]}", f"column {i} rendered at {got} (pack {s.pw}) but assigned {full[i]}")
             if mode == "box" and got and got[1:] != (maxrow,):
@@ -580,6 +618,8 @@ def build_pile(d):
     for i, it in enumerate(d["items"]):
         kind, amount, sizing = it[0], it[1], it[2]
         s = spy(GLYPHS[i], sizing, pw=3, ph=amount if kind == "pack" else 1)
+        if kind == "pack" and len(it) > 3 and it[3] is not None:
+            s.fph = it[3]  # rows answered when asked with focus=True
         spies.append(s)
         specs.append((kind, None if kind == "pack" else amount))
     if entry in ("ctor", "ctor-short", "ctor-legacy", "ctor-enum"):
@@ -626,7 +666,7 @@ def build_pile(d):
     return P, spies
 
 
-def judge_pile(obs, items, maxrow, rows, dom):
+def judge_pile(obs, items, maxrow, rows, dom, own=None):
     c = obs.c
     n = len(items)
     if not isinstance(rows, (list, tuple)) or len(rows) != n:
@@ -643,6 +683,8 @@ def judge_pile(obs, items, maxrow, rows, dom):
     fixed = 0
     for i, (kind, amount, *_r) in enumerate(items):
         if kind != "weight":
+            if own is not None and own[i] is not None:
+                amount = own[i]
             c["pile.cl_own_size"] += 1
             fixed += amount
             if rows[i] != amount:
@@ -674,6 +716,7 @@ def judge_pile(obs, items, maxrow, rows, dom):
 
 def eval_pile(obs, P, spies, d, focus, maxrow, mode):
     items = d["items"]
+    pflag = bool(d.get("f", False))
     maxcol = d["maxcol"]
     dom = pile_domain(items)
     tag = f"|{dom}" if dom else ""
@@ -685,7 +728,7 @@ def eval_pile(obs, P, spies, d, focus, maxrow, mode):
     size = (maxcol, maxrow)
     has_w = any(k == "weight" and a > 0 for k, a, *_ in items)
     try:
-        rows = P.get_item_rows(size, False)
+        rows = P.get_item_rows(size, pflag)
     except WidgetWarning:
         obs.c["skipped_invalid"] += 1
         return
@@ -705,15 +748,25 @@ def eval_pile(obs, P, spies, d, focus, maxrow, mode):
     if not has_w:
         obs.fail("C19|Pile|get_item_rows|no-documented-error-without-weighted-item", f"rows={rows}")
         return
-    full = judge_pile(obs, items, maxrow, rows, dom)
+    # own size of a pack item = its rows under the focus flag it is rendered with
+    own = []
+    for i, (it, s) in enumerate(zip(items, spies)):
+        if it[0] == "pack":
+            own.append(s.rows_for(maxcol, bool(pflag and i == focus)))
+            if s.rows_for(maxcol, True) != s.rows_for(maxcol, False):
+                obs.c["pile.focus_dependent_pack_measured"] += 1
+                obs.c[f"pile.focus_dependent_pack_{'focus' if i == focus else 'nonfocus'}_item_container_focus_{pflag}"] += 1
+        else:
+            own.append(None)
+    full = judge_pile(obs, items, maxrow, rows, dom, own)
     flush_spies(obs, spies, "Pile")
     if full is None or mode == "rows":
         return
     for s in spies:
         s.reset()
     try:
-        _w, h2, _args = P.get_rows_sizes(size, False)
-        canv = P.render(size, False)
+        _w, h2, _args = P.get_rows_sizes(size, pflag)
+        canv = P.render(size, pflag)
         trows = text_rows(canv)
         ccols, crows = canv.cols(), canv.rows()
     except WidgetWarning:
@@ -736,7 +789,10 @@ def eval_pile(obs, P, spies, d, focus, maxrow, mode):
             got = s.rendered[0]
             if got[0] != maxcol:
                 obs.fail("C19|Pile|render|child-width!=maxcol", f"item {i} rendered at {got}")
-            gh = got[1] if len(got) > 1 else s.rows_for(got[0])
+            rflag = [f for what, f in s.flags if what == "render"][-1]
+            if rflag != bool(pflag and i == focus):
+                obs.fail("C19|Pile|render|child-rendered-with-wrong-focus-flag", f"item {i} rendered with focus={rflag}, container focus={pflag}, focus item {focus}")
+            gh = got[1] if len(got) > 1 else s.rows_for(got[0], rflag)
             if gh != full[i]:
                 obs.fail(f"C19|Pile|render|child-rows!=assigned-rows|kind={items[i][0]}", f"item {i} rendered at {got} but assigned {full[i]}")
         elif s.rendered:
@@ -1625,6 +1681,44 @@ def entry_sweep(ctx, obs):
                 run_desc(ctx, obs, d)
 
 
+def focus_dep_sweep(ctx, obs):
+    """deterministic core, not time-limited: pack columns / pack items whose pack() / rows() answer depends on the focus
+    argument (w0 unfocused, w1 focused), through the FIXED path (fixed-only, fixed+flow that fits) and the FLOW path
+    (flow-only, fixed+flow wider than maxcol), every focus position x container focus flag"""
+    idx = 0
+    pairs = [(2, 4), (4, 2), (1, 3), (5, 9)]
+    others = [["weight", 1, "bl", False], ["given", 3, "bl", False], ["weight", 2, "bl", False]]
+    for (w0, w1), sizing, n, div in itertools.product(pairs, ("l", "x", "lx", "blx"), (2, 3), (0, 1)):
+        for ppos in range(n):
+            cols = [list(others[(k + ppos) % 3]) for k in range(n)]
+            cols[ppos] = ["pack", w0, sizing, False, w1]
+            if n == 3 and (ppos + w0) % 2:
+                cols[(ppos + 1) % 3] = ["pack", w1, "l", False, w0]
+            for maxcol, focus, fflag in itertools.product((4, 8, 13), range(n), (False, True)):
+                idx += 1
+                if not ctx.mine(idx):
+                    continue
+                mode = ("widths", "flow", "box")[idx % 3]
+                if mode == "box" and any("b" not in c[2] for c in cols):
+                    mode = "flow"
+                d = {"k": "columns", "cols": cols, "div": div, "minw": 1, "focus": focus, "maxcol": maxcol, "mode": mode, "maxrow": 2, "f": fflag}
+                run_desc(ctx, obs, d)
+                obs.c["focusdep.columns_cases"] += 1
+    for (h0, h1), n in itertools.product(pairs, (2, 3)):
+        for ppos in range(n):
+            items = [["weight", 1 + (k % 2), "b"] if k % 2 == 0 else ["given", 2, "b"] for k in range(n)]
+            items[ppos] = ["pack", h0, "l", h1]
+            if not any(it[0] == "weight" for it in items):
+                items[(ppos + 1) % n] = ["weight", 1, "b"]
+            for maxrow, focus, fflag in itertools.product((5, 9, 14), range(n), (False, True)):
+                idx += 1
+                if not ctx.mine(idx):
+                    continue
+                d = {"k": "pile", "items": items, "focus": focus, "maxcol": 3, "maxrow": maxrow, "mode": ("rows", "render")[idx % 2], "f": fflag}
+                run_desc(ctx, obs, d)
+                obs.c["focusdep.pile_cases"] += 1
+
+
 def rand_columns(rng):
     n = rng.randint(1, 7)
     big = rng.random() < 0.3
@@ -1647,6 +1741,8 @@ def rand_columns(rng):
                 cols.append(["pack", amount, "blx", False])
             else:
                 cols.append(["pack", amount, rng.choice(["x", "lx", "l", "blx"]), False])
+                if rng.random() < 0.3:
+                    cols[-1].append(rng.randint(1, hi))  # pack width when asked with focus=True
         else:
             w = rng.choice([1, 1, 2, 3, 5, 7, 10, 0.5, 1.5, 2.5, 0.1]) if not zero else rng.choice([0, 0, 1, 2])
             if mode == "box":
@@ -1766,11 +1862,13 @@ def rand_pile(rng):
             items.append(["given", rng.randint(0 if zero else 1, hi), rng.choice(["b", "bl"])])
         elif r < 0.55:
             items.append(["pack", rng.randint(1, hi), rng.choice(["l", "lx", "bl"])])
+            if rng.random() < 0.3:
+                items[-1].append(rng.randint(1, hi))  # rows when asked with focus=True
         else:
             w = rng.choice([1, 1, 2, 3, 5, 7, 0.5, 1.5, 0.1]) if not zero else rng.choice([0, 0, 1, 2])
             items.append(["weight", w, "b"])
     return {"k": "pile", "items": items, "focus": rng.randrange(n), "maxcol": rng.randint(1, 9), "maxrow": rng.randint(1, 60), "mode": rng.choice(["rows", "render"]),
-            "entry": rng.choice(PILE_ENTRIES) if rng.random() < 0.35 else "ctor"}  # fmt: skip
+            "entry": rng.choice(PILE_ENTRIES) if rng.random() < 0.35 else "ctor", "f": rng.random() < 0.5}  # fmt: skip
 
 
 def padding_space():
@@ -2056,10 +2154,10 @@ def rand_gridflow(rng):
     return d
 
 
-def random_until(ctx, obs, gen, frac, counter):
+def random_until(ctx, obs, gen, frac, counter, at_least=0):
     rng = ctx.rng
     k = 0
-    while ctx.more(frac):
+    while ctx.more(frac) or k < at_least:
         for _ in range(50):
             d = gen(rng)
             run_desc(ctx, obs, d)
@@ -2085,10 +2183,18 @@ def run(ctx):
     gridflow_directed(ctx, obs)
     gridflow_directed_nonuniform(ctx, obs)
     entry_sweep(ctx, obs)
+    focus_dep_sweep(ctx, obs)
+    ctx.extra["directed_cores_seconds_shard0"] = round(ctx.elapsed(), 2)
+    ctx.count("directed_cores_centiseconds_all_shards", int(ctx.elapsed() * 100))
+    # the deterministic cores are not time-limited; the time budget (and its fractions below) starts after them, so that a
+    # loaded machine cannot starve the timed sections
+    import time
+
+    ctx.t0 = time.monotonic()
     # budget fractions (cumulative): each part = enumerated core, then random cases until its slice ends
     columns_exhaustive(ctx, obs, 0.40)
     zero_sweep(ctx, obs)
-    random_until(ctx, obs, rand_live, 0.44, "live.random_histories")
+    random_until(ctx, obs, rand_live, 0.44, "live.random_histories", at_least=50)
     random_until(ctx, obs, rand_columns, 0.47, "col.random_cases")
     merge_counts(ctx, obs)
     pile_exhaustive(ctx, obs, 0.54)
